@@ -80,6 +80,7 @@ func cmdSweep(args []string) {
 	nosolve := fs.Bool("nosolve", false, "")
 	dumpall := fs.Bool("dumpall", false, "with -dump: write every query, not only the failed ones")
 	root := fs.String("repo", repoRoot, "")
+	faulty := fs.Bool("faulty", false, "fault mode: caller-supplied dependencies may fail")
 	fs.Parse(args)
 	t0 := time.Now()
 	l, err := loadRepo(*root)
@@ -106,6 +107,7 @@ func cmdSweep(args []string) {
 	for _, n := range names {
 		tu := time.Now()
 		q0 := len(x.queries)
+		x.faulty = *faulty
 		x.verifyUnit(l.funcs[n])
 		if *verbose || time.Since(tu) > time.Second {
 			fmt.Printf("unit %s: %d queries, %d paths, %d steps, %.1fs\n", n, len(x.queries)-q0, x.pathN, x.totalSteps, time.Since(tu).Seconds())
